@@ -130,7 +130,7 @@ Proof.
   - pose proof (so_set_spec cfg m [] s ob kvs H (held_live [] s ob Hob)) as C. destruct (so_set ob kvs s) as [x s']. tauto.
   - pose proof (so_sync_update_spec cfg m [] s ob H (held_live [] s ob Hob)) as C. destruct (so_sync_update ob s) as [[x|e] s']; tauto.
   - pose proof (so_sync_spec cfg m [] s ob H Hob) as C. destruct (so_sync ob s) as [x s']. tauto.
-  - pose proof (so_destroy_spec cfg m [] s ob H Hob) as C. destruct (so_destroy cfg ob s) as [x s']. tauto.
+  - pose proof (so_destroy_spec cfg m [] s ob H Hob) as C. destruct (so_destroy ob s) as [x s']. tauto.
   - (* drop *) unfold bind, modify, ret. cbn [fst snd]. now apply Inv_drop.
   - (* cull *)
     unfold bind at 1, gets. cbn [fst snd].
